@@ -697,7 +697,7 @@ class NestedFrame(pd.DataFrame):
                 # Without a ".", always assume base layer
                 if len(components) < 2:
                     subset_target.append("base")
-                    resolved_subset.append(col)
+                    resolved_subset.append(components[0])
                 else:
                     layer = components[0]
                     if layer in nested_cols:
@@ -955,7 +955,7 @@ class NestedFrame(pd.DataFrame):
         # Apply pandas sort_values
         if target == "base":
             return super().sort_values(
-                by=by,
+                by=[".".join(components) for components in by_components],
                 axis=axis,
                 ascending=ascending,
                 inplace=inplace,
